@@ -431,6 +431,31 @@ impl Comments for AnyComments {
     // harness gives the pass); the shared store uses the trait's default body (take, call,
     // put back) over the calls above, which is what `PluginCommentsProxy` and any
     // third-party store give the pass.
+    // with_trailing / has_flag likewise (added after S68: the trait's default `has_flag` is NOT read-only - it takes
+    // the leading comments and puts them back as TRAILING ones - while `SingleThreadedComments` overrides it with
+    // a plain lookup; the real `PluginCommentsProxy` inherits the default)
+    fn with_trailing<F, Ret>(&self, pos: BytePos, f: F) -> Ret
+    where
+        Self: Sized,
+        F: FnOnce(&[Comment]) -> Ret,
+    {
+        match self {
+            AnyComments::Single(c) => {
+                seam("c.with_trailing");
+                c.with_trailing(pos, f)
+            }
+            AnyComments::Shared(_) => RequiredOnly(self).with_trailing(pos, f),
+        }
+    }
+    fn has_flag(&self, lo: BytePos, flag: &str) -> bool {
+        match self {
+            AnyComments::Single(c) => {
+                seam("c.has_flag");
+                c.has_flag(lo, flag)
+            }
+            AnyComments::Shared(_) => RequiredOnly(self).has_flag(lo, flag),
+        }
+    }
     fn with_leading<F, Ret>(&self, pos: BytePos, f: F) -> Ret
     where
         Self: Sized,
@@ -450,5 +475,51 @@ impl Comments for AnyComments {
                 ret
             }
         }
+    }
+}
+
+/// A store seen through the REQUIRED methods of `Comments` only: the defaulted ones (`with_leading`,
+/// `with_trailing`, `has_flag`) are then swc_common's own default bodies, as for any third-party store.
+struct RequiredOnly<'a>(&'a AnyComments);
+
+impl Comments for RequiredOnly<'_> {
+    fn add_leading(&self, pos: BytePos, cmt: Comment) {
+        self.0.add_leading(pos, cmt)
+    }
+    fn add_leading_comments(&self, pos: BytePos, comments: Vec<Comment>) {
+        self.0.add_leading_comments(pos, comments)
+    }
+    fn has_leading(&self, pos: BytePos) -> bool {
+        self.0.has_leading(pos)
+    }
+    fn move_leading(&self, from: BytePos, to: BytePos) {
+        self.0.move_leading(from, to)
+    }
+    fn take_leading(&self, pos: BytePos) -> Option<Vec<Comment>> {
+        self.0.take_leading(pos)
+    }
+    fn get_leading(&self, pos: BytePos) -> Option<Vec<Comment>> {
+        self.0.get_leading(pos)
+    }
+    fn add_trailing(&self, pos: BytePos, cmt: Comment) {
+        self.0.add_trailing(pos, cmt)
+    }
+    fn add_trailing_comments(&self, pos: BytePos, comments: Vec<Comment>) {
+        self.0.add_trailing_comments(pos, comments)
+    }
+    fn has_trailing(&self, pos: BytePos) -> bool {
+        self.0.has_trailing(pos)
+    }
+    fn move_trailing(&self, from: BytePos, to: BytePos) {
+        self.0.move_trailing(from, to)
+    }
+    fn take_trailing(&self, pos: BytePos) -> Option<Vec<Comment>> {
+        self.0.take_trailing(pos)
+    }
+    fn get_trailing(&self, pos: BytePos) -> Option<Vec<Comment>> {
+        self.0.get_trailing(pos)
+    }
+    fn add_pure_comment(&self, pos: BytePos) {
+        self.0.add_pure_comment(pos)
     }
 }
